@@ -64,6 +64,23 @@ class Case:
                 t.add_tag("T%d" % i)
                 t.add_tag("ALL")
                 t.add_tag("ODD" if i % 2 else "EVEN")
+        elif structured == "mpo":
+            L = r.choice([2, 3])
+            bonds = [r.choice([1, 2]) for _ in range(L - 1)]
+            arrays = []
+            for i in range(L):
+                shp = []
+                if i > 0:
+                    shp.append(bonds[i - 1])
+                if i < L - 1:
+                    shp.append(bonds[i])
+                shp += [r.choice([1, 2]), 2]
+                arrays.append(self._rand(shp, cplx))
+            self.tn = qtn.MatrixProductOperator(arrays, shape="lrud").astype(dtype)
+            for i, t in enumerate(self.tn.tensors):
+                t.add_tag("T%d" % i)
+                t.add_tag("ALL")
+                t.add_tag("ODD" if i % 2 else "EVEN")
         else:
             nt = r.choice([1, 2, 2, 3, 3, 4])
             nl = r.choice([2, 3, 4, 5, 6])
@@ -167,12 +184,24 @@ class Case:
         try:
             got = fn()
             tn = got if got is not None else self.tn
-            if hasattr(tn, "tensors"):
+            if isinstance(tn, tuple) and len(tn) == 2 and not hasattr(tn, "inds"):
+                # everything was contracted with the exponent stripped: (mantissa, exponent)
+                m_, e_ = tn
+                if hasattr(m_, "inds"):
+                    val = np_denote([(tuple(m_.inds), np.asarray(m_.data))], out, float(e_))
+                    rec["outer_after"] = [str(i) for i in m_.inds]
+                else:
+                    val = np.asarray(m_) * 10.0 ** float(e_)
+                    rec["outer_after"] = []
+            elif hasattr(tn, "tensors"):
                 val = np_denote(tn_tensors(tn), out, tn.exponent)
                 rec["outer_after"] = [str(i) for i in tn.outer_inds()]
-            else:   # a single Tensor came back
+            elif hasattr(tn, "inds"):   # a single Tensor came back
                 val = np_denote([(tuple(tn.inds), np.asarray(tn.data))], out, 0.0)
                 rec["outer_after"] = [str(i) for i in tn.inds]
+            else:                       # everything was contracted to a number
+                val = np.asarray(tn)
+                rec["outer_after"] = []
             rec["result"] = snap_garray(val, self.tol, 10.0 ** self.scale)
             rec["_mag"] = float(np.max(np.abs(val), initial=0.0)) * 10.0 ** self.scale
         except Exception as ex:  # noqa
@@ -216,7 +245,9 @@ class Case:
             nt = tn.num_tensors
             kind = r.choice(["contract", "contract", "contract_opt", "strip", "xor_all", "tags_all", "cumulative", "to_dense",
                              "norm", "linop", "linop", "trace", "partial", "inplace", "strip_tid", "equalize", "distribute",
-                             "rshift", "structured", "matmul", "overlap", "contract_get", "select_all", "overlap2", "scaled", "isel", "between", "contract_ind", "t_overlap"])
+                             "rshift", "structured", "cumulative_groups", "cumulative_groups", "matmul", "overlap", "contract_get", "select_all", "overlap2", "scaled", "isel", "between", "contract_ind", "t_overlap"])
+            if self.structured and r.random() < 0.3:
+                kind = "structured"
             if nt == 1 and self.exp10 == 0 and not getattr(self, "updated", False) and r.random() < 0.35:
                 kind = "t_overlap"      # the Tensor-level spellings are only reachable from one-tensor networks
             outer = list(tn.outer_inds())
@@ -393,16 +424,73 @@ class Case:
                 new = r.choice([0.0, 1.0, -1.0])
                 self.update("distribute_exponent", lambda: tn.distribute_exponent(new))
             elif kind == "structured":
-                if self.structured != "mps":
+                if self.structured not in ("mps", "mpo"):
                     continue
                 out = list(self.outer0)
-                which = r.choice(["...", "slice", "cumul"])
-                if which == "...":
+                which = r.choice(["...", "slice", "cumul", "partial", "partial", "bsz", "inplace_all"])
+                if getattr(self, "updated", False) and which in ("partial", "inplace_all"):
+                    which = "..."
+                if which == "partial":
+                    # a range of sites only: what comes back is still a network denoting the same value
+                    L_ = tn.L
+                    a_ = r.randrange(0, L_ - 1)
+                    b_ = r.randrange(a_ + 1, L_ + 1)
+                    sl = r.choice([slice(a_, b_), slice(b_ - 1, a_ - 1 if a_ > 0 else None, -1)])
+                    how_ = r.choice(["contract_structured", "^", "contract", "contract_structured_"])
+                    nm = "%s.%s(slice(%s,%s,%s))" % (self.structured, how_, sl.start, sl.stop, sl.step)
+                    if how_ == "contract_structured":
+                        self.update(nm, lambda: tn.contract_structured(sl, structure_bsz=r.choice([1, 2, 5])))
+                    elif how_ == "^":
+                        self.update(nm, lambda: tn ^ sl)
+                    elif how_ == "contract":
+                        # (a zero has no mantissa/exponent form: stripping is only asked for on non-vanishing tensors)
+                        se_ = r.random() < 0.3 and not self.any_zero_tensor() and not self.value_is_zero(list(self.outer0))
+                        self.update(nm, lambda: tn.contract(sl, strip_exponent=se_))
+                    else:
+                        self.update(nm, lambda: tn.contract_structured(sl, inplace=True) and None)
+                elif which == "bsz":
+                    bsz = r.choice([1, 2, 3])
+                    self.route("%s.contract_structured(...,bsz=%d)" % (self.structured, bsz), out,
+                               lambda: tn.contract_structured(..., structure_bsz=bsz), **{"order_free": True})
+                elif which == "inplace_all":
+                    self.update("%s.contract_(...)" % self.structured, lambda: tn.contract_(...) and None)
+                elif which == "...":
                     self.route("mps.contract(...)", out, lambda: tn.contract(...), **{"order_free": True})
                 elif which == "slice":
                     self.route("mps.contract_structured(all sites)", out, lambda: tn.contract_structured(slice(0, tn.L)), **{"order_free": True})
                 else:
                     self.route("mps^slice", out, lambda: tn ^ slice(0, tn.L), **{"order_free": True})
+            elif kind == "cumulative_groups":
+                # contract_cumulative over a sequence of tag groups: all of them (a value) or some (a network)
+                if hyper or nt < 2 or any(len(set(t.inds)) != t.ndim for t in tn.tensors):
+                    continue
+                cand = sorted(g for g in tn.tag_map if g.startswith("T"))
+                r.shuffle(cand)
+                full = r.random() < 0.6 and not getattr(self, "updated", False)
+                use = cand if full else cand[:max(2, len(cand) - 1)]
+                seq, k_ = [], 0
+                while k_ < len(use):
+                    w_ = r.choice([1, 1, 2])
+                    seq.append(use[k_:k_ + w_])
+                    k_ += w_
+                kw = {}
+                if r.random() < 0.3 and not self.value_is_zero(list(self.outer0)):
+                    kw["strip_exponent"] = True
+                if r.random() < 0.3 and not self.any_zero_tensor() and not self.value_is_zero(list(self.outer0)):
+                    kw["equalize_norms"] = r.choice([True, 1.0])
+                out = list(self.outer0)
+                if full and len(use) == len(cand):
+                    r.shuffle(out)
+                    if "strip_exponent" in kw:
+                        self.route("contract_cumulative(all,strip)", out, lambda: tn.contract_cumulative(seq, output_inds=out, **kw))
+                    else:
+                        self.route("contract_cumulative(all)", out, lambda: tn.contract_cumulative(seq, output_inds=out, **kw))
+                else:
+                    kw.pop("strip_exponent", None)
+                    if r.random() < 0.5:
+                        self.update("contract_cumulative(some)", lambda: tn.contract_cumulative(seq, **kw))
+                    else:
+                        self.update("contract_cumulative(some,inplace)", lambda: tn.contract_cumulative(seq, inplace=True, **kw) and None)
             elif kind == "matmul":
                 # tn @ other with no shared outer inds left: scalar <tn*|...> is covered by overlap; here T @ T
                 if nt != 2 or self.exp10 != 0 or getattr(self, "updated", False):
@@ -697,7 +785,7 @@ def run(ctx):
     recs = []
     for k in range(ncases):
         dt = dtypes[k % 4]
-        structured = "mps" if k % 7 == 3 else None
+        structured = "mps" if k % 7 == 3 else ("mpo" if k % 11 == 5 else None)
         c = Case(rng, k, dt, structured)
         c.do_routes(nroutes)
         recs += c.recs
